@@ -657,6 +657,18 @@ func binPrintC03(c *Ctx, rule string) {
 				return "<" + fld + ">", true
 			}
 		}
+		// the operand taken out of its parentheses first
+		if rc, ok := recv.(*ssa.Call); ok && len(rc.Call.Args) == 1 {
+			for _, sp := range p.parenStrippers() {
+				if rc.Call.StaticCallee() == sp {
+					for _, fld := range []string{"LHS", "RHS"} {
+						if derivesFromField(rc.Call.Args[0], fld, 0) {
+							return "<part of " + fld + ">", true
+						}
+					}
+				}
+			}
+		}
 		return "<?>", true
 	}
 	n := 0
